@@ -327,6 +327,11 @@ FIXED = {
     "subproc_inject_wrong_closer": lambda n: "$(ls " + "@$(a " * n + "}" + ")" * n + ")\n",
     # right-nested and chained expressions in an input that is rejected (in the tail of the chain, or on a later line): the
     # diagnostic pass walks the chain with the invalid_* alternatives switched on
+    # long argument lists in a rejected input (the invalid_kwarg / invalid_arguments alternatives see every argument)
+    "call_kwargs_then_error": lambda n: "f(" + ", ".join(f"k{i}=1" for i in range(n)) + ")\nb c\n",
+    "call_kwargs_bad_tail": lambda n: "f(" + ", ".join(f"k{i}=v{i}" for i in range(n)) + " b)\n",
+    "call_mixed_args_then_error": lambda n: "f(a, *b, " + ", ".join(f"k{i}=g(x={i})" for i in range(n)) + ", **c)\nb c\n",
+    "class_kwargs_then_error": lambda n: "class A(B, " + ", ".join(f"k{i}=1" for i in range(n)) + "):\n    pass\nb c\n",
     "ifexp_bad_tail": lambda n: "x = " + "a if b else " * n + "c d\n",
     "ifexp_then_error": lambda n: "x = " + "a if b else " * n + "c\nb c\n",
     "ifexp_paren_bad_tail": lambda n: "x = " + "(a if " * n + "b" + " else c)" * n + " d\n",
@@ -360,7 +365,7 @@ BREADTH = {
     "dict_items", "list_items", "call_args", "call_kwargs", "binop_chain", "boolop_chain", "compare_chain", "attr_chain", "call_chain", "subscript_chain",
     "statements", "if_blocks", "def_blocks", "for_else_blocks", "with_blocks", "try_blocks", "class_blocks", "while_nested_blocks", "match_blocks", "with_macro_blocks", "semicolons", "string_pieces", "assign_chain", "target_tuple", "lambda_params", "def_params", "type_params", "decorators", "elif", "cases",
     "match_or", "except_clauses", "with_items", "import_names", "global_names", "star_args", "subproc_words", "subproc_glued", "subproc_env", "pipes",
-    "boolop_bad_tail", "compare_bad_tail", "attr_chain_bad_tail", "call_chain_bad_tail", "subscript_chain_bad_tail",
+    "call_kwargs_then_error", "call_kwargs_bad_tail", "call_mixed_args_then_error", "class_kwargs_then_error", "boolop_bad_tail", "compare_bad_tail", "attr_chain_bad_tail", "call_chain_bad_tail", "subscript_chain_bad_tail",
     "macro_args", "fstring_fields", "fstr_spec", "comp_fors", "comp_ifs", "slices_tuple", "help_chain", "and_or_xonsh", "chain_trailing_op", "args_bad_tail", "stmts_then_error", "list_binop_items_bad", "tuple_binop_items_bad", "list_call_items_bad", "list_subscript_items_bad", "elif_then_error", "elif_else_then_error", "cases_then_error", "excepts_then_error", "decorators_then_error", "with_items_then_error",
 }
 
